@@ -722,6 +722,8 @@ impl<'a> Work<'a> {
         signal::register_sigint();
         let mut tasks_failed = 0;
         let mut runner = task::Runner::new(self.options.parallelism);
+        #[cfg(n2_verif)]
+        crate::verif::trace(|| "run_begin".to_string());
         while self.build_states.unfinished() {
             self.progress.update(&self.build_states.counts);
 
